@@ -39,7 +39,7 @@ TABLE = {
     ("teos::dbm::DBM::batch_check_locators_exist", "sub"): (1, "`chunk.len() - 1`: slice::chunks never yields an empty chunk"),
     ("teos::dbm::DBM::batch_remove_appointments", "sub"): (1, "`chunk.len() - 1`: slice::chunks never yields an empty chunk"),
     ("teos::dbm::DBM::batch_remove_users", "sub"): (1, "`chunk.len() - 1`: slice::chunks never yields an empty chunk"),
-    ("teos::responder::Responder::check_confirmations", "sub"): (2, "`current_height - h`: h is the height of a block this tower processed; trackers confirmed above a disconnected height sit in the reorged set, which is skipped first (OR2r keeps check_confirmations ahead of the pass that drains that set)"),
+    ("teos::responder::Responder::check_confirmations", "sub"): (1, "`current_height - h` for ConfirmedIn(h) only: h is the height of a block this tower processed; trackers confirmed above a disconnected height sit in the reorged set, which is skipped first (OR2r keeps check_confirmations ahead of the pass that drains that set). The same subtraction for InMempoolSince(h) had been tabled with this reason, which does not cover it (finding M13)"),
     ("teos::responder::Responder::rebroadcast_stale_txs", "sub"): (1, "`height - CONFIRMATIONS_BEFORE_RETRY`: main refuses to start below height IRREVOCABLY_RESOLVED (100)"),
     ("teos::tx_index::TxIndex::<K, V>::get_height", "sub"): (1, "`tip + pos + 1 - size`: TH's invariant (tip >= size - 1 from bootstrap on, tip only grows)"),
     ("watchtower_plugin::retrier::Retrier::start", "panic"): (1, "debug_assert_eq!(status, Stopped): compiled out of release builds; the manager thread is the only starter and calls start() only after should_start() saw Stopped"),
